@@ -155,6 +155,30 @@ for case in payload['cases']:
                     except Exception as e:
                         rec['errors']['combined_pre_%d' % pre] = '%s: %s' % (iutil.errname(e), str(e)[:200])
             rec['routes']['combined'] = full
+            # a collection (directory / tar.gz) of which one package is already installed: the others are still stored
+            if 'collection' in routes:
+                for pre in range(len(case['multi'])):
+                    for rname in ('collection', 'targz_collection'):
+                        with iutil.FreshDB():
+                            try:
+                                wn.add(routes['separately'][pre], progress_handler=None)
+                                wn.add(routes[rname], progress_handler=None)
+                                rec['routes']['%s_with_%d_preinstalled' % (rname, pre)] = state()
+                            except Exception as e:
+                                rec['errors']['%s_pre_%d' % (rname, pre)] = '%s: %s' % (iutil.errname(e), str(e)[:200])
+            # the in-memory route with lexicons that are skipped (already installed): the caller's resource is not modified
+            for pre in range(len(case['multi'])):
+                with iutil.FreshDB():
+                    try:
+                        wn.add(routes['separately'][pre] if 'separately' in routes else pc, progress_handler=None)
+                        r = lmf.load(pc, progress_handler=None)
+                        r0 = copy.deepcopy(r)
+                        wn.add_lexical_resource(r, progress_handler=None)
+                        if r != r0:
+                            rec['modified'].append('memory:combined_with_%d_preinstalled' % pre)
+                        rec['routes']['memory_combined_with_%d_preinstalled' % pre] = state()
+                    except Exception as e:
+                        rec['errors']['memory_combined_pre_%d' % pre] = '%s: %s' % (iutil.errname(e), str(e)[:200])
             if case.get('orphan_extension'):
                 with iutil.FreshDB():
                     mixed = {'lmf_version': '1.3', 'lexicons': [case['orphan_extension']['lexicons'][0]]
@@ -166,6 +190,16 @@ for case in payload['cases']:
                         rec['routes']['combined_after_orphan_extension'] = state()
                     except Exception as e:
                         rec['errors']['mixed'] = '%s: %s' % (iutil.errname(e), str(e)[:200])
+                with iutil.FreshDB():
+                    try:
+                        r = lmf.load(pm, progress_handler=None)
+                        r0 = copy.deepcopy(r)
+                        wn.add_lexical_resource(r, progress_handler=None)
+                        if r != r0:
+                            rec['modified'].append('memory:combined_after_orphan_extension')
+                        rec['routes']['memory_combined_after_orphan_extension'] = state()
+                    except Exception as e:
+                        rec['errors']['memory_mixed'] = '%s: %s' % (iutil.errname(e), str(e)[:200])
         # an extension whose base is not installed is skipped as a whole
         if case.get('orphan_extension'):
             with iutil.FreshDB():
